@@ -567,6 +567,7 @@ func ParseURI(uri SIPStr, puri *PsipURI) (ErrorURI, int) {
 					puri.Host.Reset()
 					puri.Port.Reset()
 					puri.PortNo = 0
+					portNo = 0 // the digits seen so far belonged to the user part
 					puri.Params.Reset()
 					puri.Headers.Reset()
 				} else {
@@ -628,6 +629,7 @@ func ParseURI(uri SIPStr, puri *PsipURI) (ErrorURI, int) {
 					puri.Host.Reset()
 					puri.Port.Reset()
 					puri.PortNo = 0
+					portNo = 0 // the digits seen so far belonged to the user part
 					puri.Params.Reset()
 					puri.Headers.Reset()
 				} else {
